@@ -175,7 +175,7 @@ def st_add():
     )
     # history: how the stamp came to be (constructor / decoded / from_datetime-style route), whether its views were read before
     # the addition (a lazily cached view must not survive it), and an optional second addition chained onto the result
-    hist = st.fixed_dictionaries({"route": st.sampled_from(["ctor", "unpack", "read_from_raw", "from_unix_days"]), "views_before": st.booleans(), "then": st.one_of(st.none(), td)})
+    hist = st.fixed_dictionaries({"route": st.sampled_from(["ctor", "unpack", "read_from_raw", "from_unix_days", "from_datetime", "read_into_from_datetime"]), "views_before": st.booleans(), "then": st.one_of(st.none(), td)})
     return st.tuples(st.one_of(gen, gen, midnight, limit), hist).map(lambda t: {**t[0], **t[1]})
 
 
@@ -195,10 +195,15 @@ def check_add(c):
         s.read_from_raw(raw)
     elif route == "from_unix_days":
         s = cds.CdsShortTimestamp.from_unix_days(c["days"] - DAY_OFFSET, c["ms"])
+    elif route == "from_datetime":
+        s = cds.CdsShortTimestamp.from_datetime(exact_dt(c["days"], c["ms"]))  # whole-millisecond datetime: exact by the statement
+    elif route == "read_into_from_datetime":
+        s = cds.CdsShortTimestamp.from_datetime(exact_dt(12345, 6789))
+        s.read_from_raw(raw)
     else:
         s = cds.CdsShortTimestamp(c["days"], c["ms"])
-    if c.get("views_before"):
-        check_views(devs, s, c["days"], c["ms"], "add.views_before")
+    if c.get("views_before") or route in ("from_datetime", "read_into_from_datetime"):
+        check_views(devs, s, c["days"], c["ms"], f"add.views_before.{route}")
     if wd > 65535:
         expect_raise(devs, "add.overflow", lambda: s + td, accept=(OverflowError,))
         return devs
@@ -210,7 +215,7 @@ def check_add(c):
     true(devs, "add.normalised", 0 <= r.ms_of_day < MS_DAY, f"ms_of_day {r.ms_of_day} not < 86400000 after adding {td!r} to ({c['days']},{c['ms']})")
     eq(devs, "add.value", (r.ccsds_days, r.ms_of_day), (wd, wm), f"({c['days']},{c['ms']}) + {td!r}")
     if (r.ccsds_days, r.ms_of_day) == (wd, wm):
-        check_views(devs, r, wd, wm, "add.views")
+        check_views(devs, r, wd, wm, f"add.views.{route}")
     if c.get("then") is not None and not devs:
         td2 = dt.timedelta(days=c["then"]["days"], seconds=c["then"]["seconds"], microseconds=c["then"]["us"])
         total2 = wd * MS_DAY + wm + td2.days * MS_DAY + td2.seconds * 1000 + td2.microseconds // 1000
@@ -277,6 +282,15 @@ def check_refuse(c):
     expect_raise(devs, f"refuse.{c['k']}.unpack", cds.CdsShortTimestamp.unpack, raw)
     e = cds.CdsShortTimestamp.empty()
     expect_raise(devs, f"refuse.{c['k']}.read_from_raw", e.read_from_raw, raw)
+    # a refused read leaves an existing stamp exactly what it was (all views still describe the old value), and it keeps working
+    days, ms = 20000 + (len(raw) * 37) % 40000, (int.from_bytes(raw[-3:] or b"\x01", "big") * 7919) % MS_DAY
+    s = cds.CdsShortTimestamp(days, ms)
+    expect_raise(devs, f"refuse.{c['k']}.read_from_raw_on_used_stamp", s.read_from_raw, raw)
+    check_views(devs, s, days, ms, f"refuse.{c['k']}.state_after_refused_read")
+    if not devs:
+        r = s + dt.timedelta(milliseconds=1)
+        total = days * MS_DAY + ms + 1
+        check_views(devs, r, total // MS_DAY, total % MS_DAY, f"refuse.{c['k']}.add_after_refused_read")
     return devs
 
 
